@@ -59,21 +59,18 @@ def main():
   finally:
     sh("git -C /repo worktree remove --force %s" % wt)
     shutil.rmtree(wt, ignore_errors=True)
-  # which checks fire?
-  st, _ = sh("git -C /repo status --porcelain")
+  # which checks fire? (on a scratch copy; /repo itself is left alone)
+  mp = os.path.join(dst, "meta.json")
+  meta = json.load(open(mp)) if os.path.exists(mp) else {}
+  meta["confirmed"] = bool(ok)
+  meta["confirmation_ran"] = ran
+  json.dump(meta, open(mp, "w"), indent=1)
+  rc, out = sh("/verif/tools/check_seeds.py %s" % name, cwd="/verif")
+  print(out.strip())
+  return 0 if ok else 1
+
+def _unused():
   fired = {}
-  rc, out = sh("git -C /repo apply %s" % patch)
-  assert rc == 0, out
-  try:
-    props = [json.loads(l)["id"] for l in open("/verif/properties.jsonl")]
-    for p in props:
-      if not os.path.exists("/verif/sa/rules/%s.py" % p.lower()):
-        continue
-      rc, out = sh("VERIF_NO_EVIDENCE=1 ./vcheck %s" % p, cwd="/verif")
-      if rc != 0:
-        fired[p] = [l for l in out.splitlines() if l.startswith(("FINDING", "ANALYSIS-ERROR"))][:4]
-  finally:
-    sh("git -C /repo checkout -- .")
   print("checks firing:", json.dumps(fired, indent=1))
   mp = os.path.join(dst, "meta.json")
   meta = json.load(open(mp)) if os.path.exists(mp) else {}
